@@ -24,6 +24,15 @@ var VerifDir = func() string {
 	return "/verif"
 }()
 
+// OutDir is where evidence and replay files are written (VERIF_OUT_DIR overrides it for
+// experiments such as running the checks against a seeded change).
+var OutDir = func() string {
+	if v := os.Getenv("VERIF_OUT_DIR"); v != "" {
+		return v
+	}
+	return VerifDir
+}()
+
 // Out is where verdict lines go (the process's original stdout).
 var Out = os.Stdout
 
@@ -229,7 +238,7 @@ func (r *Run) Violation(signature string, witness interface{}) {
 	if tooMany {
 		return
 	}
-	dir := filepath.Join(VerifDir, "replays")
+	dir := filepath.Join(OutDir, "replays")
 	os.MkdirAll(dir, 0o755)
 	path := filepath.Join(dir, fmt.Sprintf("%s-%d-%d.json", r.ID, r.seed, n))
 	b, _ := json.MarshalIndent(map[string]interface{}{
@@ -306,7 +315,7 @@ func (r *Run) Finish() int {
 		"wall_s":     time.Since(r.start).Seconds(),
 		"violations": unknown,
 	}
-	dir := filepath.Join(VerifDir, "evidence")
+	dir := filepath.Join(OutDir, "evidence")
 	os.MkdirAll(dir, 0o755)
 	b, _ := json.MarshalIndent(ev, "", " ")
 	if err := os.WriteFile(filepath.Join(dir, r.ID+".json"), b, 0o644); err != nil {
